@@ -34,7 +34,7 @@ def main():
         pid = p["id"]
         if pid not in CHECKS:
             continue
-        level, tech, ref = CHECKS[pid]
+        level, tech, ref = CHECKS[pid]; ref = "DESIGN.md §5 " + pid
         checks.append({
             "property_id": pid,
             "quick_cmd": "./check %s --tier quick" % pid,
